@@ -51,7 +51,7 @@ class MuxWorld(World):
     fault_kinds = ("abort", "gap", "rw_same_cycle", "unmapped_access", "byzantine_raw",
                    "nonconforming_access", "registers_added_after_multiplexer_was_constructed",
                    "elaborated_while_still_being_populated", "read_and_write_woven",
-                   "domain_reset")
+                   "domain_reset", "stray_write_between_chunks")
     assumptions = (
         "Amaranth's Python RTL simulator executes the elaborated netlist faithfully",
         "a reset of the clock domain (injected in idle cycles) abandons the open transaction",
@@ -150,6 +150,8 @@ class MuxWorld(World):
                 gaps = [rng.range(1, 2) if rng.chance(0.2) else 0 for _ in range(size)]
                 ops.append({"k": "txn", "reg": rng.below(nreg), "mode": rng.choice(["r", "w", "rw"]),
                             "n": n, "gaps": gaps, "data": [rng.bits(dw) for _ in range(size)]})
+                if rng.chance(0.2):
+                    ops[-1]["pokes"] = {str(rng.range(1, 4)): rng.below(1 << aw)}
                 cycles += 4
         return ops
 
@@ -315,6 +317,10 @@ class MuxWorld(World):
                     stats.fault("gap")
                 elif tag == "weave":
                     stats.fault("read_and_write_woven")
+                elif tag == "poke":
+                    stats.fault("stray_write_between_chunks")
+                    if e.hit is None or not e.hit.writable:
+                        stats.probe("ignored_write_inside_a_write_transaction")
                 elif tag == "raw":
                     stats.fault("byzantine_raw")
                 if rs and ws:
@@ -350,6 +356,8 @@ class MuxWorld(World):
         if op.get("k") == "txn":
             if any(op.get("gaps") or []):
                 yield dict(op, gaps=[])
+            if op.get("pokes"):
+                yield dict(op, pokes={})
             if op.get("mode") == "rw":
                 yield dict(op, mode="r")
                 yield dict(op, mode="w")
